@@ -182,7 +182,7 @@ theorem ctxVal_other (s s' : St) (e : Ev) (mc : Option Nat) (h : CtxVal s mc) (h
         · cases hp
       · rw [ha] at hnone; cases hnone
 
-theorem ctxVal_cfg (s s' : St) (hi : Inv s) (kp : Bool) (c0 : Nat) (t : Bool)
+theorem ctxVal_cfg (s s' : St) (hi : Inv s) (kp : Bool) (c0 : Nat) (t : Nat)
     (hs : step s (.cfg kp c0 t) = some s') : CtxVal s' (some c0) := by
   intro c hc; cases hc
   rcases cfg_frame s s' _ hs with ⟨kp', c', t', he, hcf, _, _, hctx⟩ | ⟨hcf, _⟩
